@@ -134,7 +134,7 @@ func supervise(id, tier string) int {
 		}
 		return code
 	}
-	tail := tailFile(errPath, 6000)
+	tail := headFile(errPath, 12000) + "\n…\n" + tailFile(errPath, 6000)
 	if timedOut {
 		fmt.Printf("INCONCLUSIVE property=%s watchdog fired after %v (wall-clock, not a verdict)\n", id, limit)
 		fmt.Fprintln(os.Stderr, tail)
@@ -157,6 +157,17 @@ func supervise(id, tier string) int {
 	fmt.Printf("BROKEN property=%s: checking process died outside ion-go (%v)\n", id, err)
 	fmt.Fprintln(os.Stderr, tail)
 	return 2
+}
+
+func headFile(path string, n int) string {
+	data, err := os.ReadFile(path)
+	if err != nil {
+		return ""
+	}
+	if len(data) > n {
+		data = data[:n]
+	}
+	return string(data)
 }
 
 func tailFile(path string, n int) string {
